@@ -23,6 +23,15 @@ def textOp (fn : String) (a : Str) (b : Str) : Json :=
   | "splitlines" => Json.mkObj [("ok", .arr ((splitLinesKeep a).map jstr).toArray)]
   | _ => Json.mkObj [("err", "bad-op"), ("why", s!"text fn {fn}")]
 
+def textFns : List String :=
+  ["comment", "tools_indent", "remove_bom", "strip_empty_lines", "remove_indentation", "norm",
+   "doublequote_string", "prepare_text_for_dbml", "quote_string", "note_option_to_dbml",
+   "prepare_text_for_sql", "textwrap_indent", "isspace", "splitlines"]
+
+/-- every L1 function on one string (`b` = the second argument of `comment` / `textwrap.indent`). -/
+def textAll (a b : Str) : Json :=
+  Json.mkObj (textFns.map fun fn => (fn, textOp fn a b))
+
 def handle (j : Json) : Except String Json := do
   let op ← (← j.getObjVal? "op").getStr?
   match op with
@@ -32,6 +41,16 @@ def handle (j : Json) : Except String Json := do
     let a ← strF j "a"
     let b ← strFD j "b"
     pure (textOp fn a b)
+  | "site_reason" =>
+    let site ← (← j.getObjVal? "site").getStr?
+    let t ← strF j "t"
+    match Site.ofString site with
+    | some s => pure (Json.mkObj [("ok", (siteReason s t).getD "")])
+    | none => pure (Json.mkObj [("err", "bad-op"), ("why", site)])
+  | "textall" =>
+    let a ← strF j "a"
+    let b ← strFD j "b"
+    pure (textAll a b)
   | "sql" =>
     let d ← Codec.db (← j.getObjVal? "db")
     pure (encR (Sql.renderDb d))
